@@ -506,6 +506,16 @@ impl LiveActor {
         match result {
             Err(ConnectError::RemoteAbort(AbortReason::AlreadySyncing)) => {
                 debug!(?reason, "remote abort, already syncing");
+                // The remote declined because of a sync it considers running. If that is a
+                // request of theirs which we accepted, that session finishes the slot.
+                // Otherwise (their request was lost, or they were still wrapping up an earlier
+                // session) nobody will: free the slot, or we would refuse to sync with this
+                // peer forever.
+                if let Some(resync) = self.state.abort_connect(&namespace, peer, reason) {
+                    if resync {
+                        self.sync_with_peer(namespace, peer, SyncReason::Resync);
+                    }
+                }
             }
             res => {
                 self.on_sync_finished(
